@@ -1,6 +1,6 @@
 (* Function table for the function-level correspondence check.  The ids are
    mirrored in harness/fnids.go. *)
-From OTR Require Import Go.Base Gen.Consts Corr.Val Bytes.Wire Bytes.Msgs Bytes.Strconv Bytes.B64 Bytes.Frag Bytes.Text Proto.Group.
+From OTR Require Import Go.Base Gen.Consts Corr.Val Bytes.Wire Bytes.Msgs Bytes.Strconv Bytes.B64 Bytes.Frag Bytes.Text Proto.Group Crypto.Sha Crypto.Aes Spec.Otr.
 Open Scope N_scope.
 
 Definition v_rest_n (o : option (bytes * N)) : val :=
@@ -109,6 +109,27 @@ Definition dispatch_text (fn : N) (a : list val) : val :=
   | 52 => match decode (argB a 0) with Ok d => VB d | Err _ => VNone | Panic => VPanic end
   | 53 => VB (encode (argB a 0))
   | 90 => vbool (isGroupElementN (argN a 0) (argN a 1))
+  (* cryptographic primitives of the specification model *)
+  | 100 => VB (sha1 (argB a 0))
+  | 101 => VB (sha256 (argB a 0))
+  | 102 => VB (hmac_sha1 (argB a 0) (argB a 1))
+  | 103 => VB (hmac_sha256 (argB a 0) (argB a 1))
+  | 104 => VB (aes_ctr (argB a 0) (argB a 1) (argB a 2))
+  | 105 => VB (aes_encrypt_block (argB a 0) (argB a 1))
+  (* the specification: key derivation and messages; arguments as documented in harness/c10.go *)
+  | 110 => let k := spec_ake_keys (argN a 0) in VL (map VB [k_ssid k; k_c k; k_c' k; k_m1 k; k_m2 k; k_m1' k; k_m2' k])
+  | 111 => let k := spec_data_keys (argN a 0) (argN a 1) (argN a 2) in
+           VL (map VB [dk_send_aes k; dk_recv_aes k; dk_send_mac k; dk_recv_mac k; dk_extra k])
+  | 112 => VB (spec_dh_commit (argN a 0) (argN a 1) (argN a 2) (argB a 3) (argN a 4))
+  | 113 => VB (spec_dh_key (argN a 0) (argN a 1) (argN a 2) (argN a 3))
+  | 114 => VB (spec_reveal_sig (argN a 0) (argN a 1) (argN a 2) (argB a 3) (spec_ake_keys (argN a 4))
+                 {| dp := argN a 5; dq := argN a 6; dg := argN a 7; dy := argN a 8 |} (argN a 9) (argB a 10))
+  | 115 => VB (spec_signature (argN a 0) (argN a 1) (argN a 2) (spec_ake_keys (argN a 3))
+                 {| dp := argN a 4; dq := argN a 5; dg := argN a 6; dy := argN a 7 |} (argN a 8) (argB a 9))
+  | 116 => VB (spec_data_message (argN a 0) (argN a 1) (argN a 2) (argN a 3) (argN a 4) (argN a 5) (argN a 6) (argB a 7)
+                 (spec_data_keys (argN a 8) (argN a 9) (argN a 10)) (argB a 11) (argB a 12))
+  | 117 => VB (spec_M (argB a 0) (argN a 1) (argN a 2) {| dp := argN a 3; dq := argN a 4; dg := argN a 5; dy := argN a 6 |} (argN a 7))
+  | 118 => VB (spec_payload (argB a 0) (map (fun v => match v with VL [VN ty; VB b] => (ty, b) | _ => (0, []) end) (argL a 1)))
   | 80 => match dataMsg_deser (argB a 0) with Ok c => v_dataMsg c | Err _ => VNone | Panic => VPanic end
   | 60 => VB (fragPrefix (argN a 0 =? 3) (argN a 1) (argN a 2) (argN a 3) (argN a 4))
   | 61 => VL (map VB (fragment (argN a 0 =? 3) (argN a 1) (argN a 2) (argB a 3) (argN a 4)))
@@ -128,4 +149,4 @@ Definition dispatch_text (fn : N) (a : list val) : val :=
   end.
 
 Definition dispatch (fn : N) (a : list val) : val :=
-  if fn <? 50 then dispatch_bytes fn a else if fn <? 100 then dispatch_text fn a else VErr 999.
+  if fn <? 50 then dispatch_bytes fn a else dispatch_text fn a.
